@@ -653,3 +653,68 @@ func Fuzz[C any](f *testing.F, gen func(*rapid.T) C, check func(C) Result) {
 		}
 	}))
 }
+
+// ---- the same property under concurrency (package-level scratch state) ----
+
+// ParCase is a group of cases that RunPar checks at the same time.
+type ParCase[C any] struct {
+	Cases []C `json:"cases"`
+}
+
+// RunPar drives a pure per-case check on K generated cases AT THE SAME TIME,
+// one goroutine each, rendezvous at the start, several rounds per group.  The
+// checks are value oracles of single-threaded properties; they hold under
+// concurrency exactly if the code under test keeps no hidden shared state (a
+// package-level scratch buffer introduced "to save an allocation" gives wrong
+// VALUES as soon as two callers overlap).  A violation found this way is
+// schedule-dependent: the replay file holds the whole group and the replay
+// repeats it many times.
+func RunPar[C any](t *testing.T, k int, gen func(*rapid.T) C, check func(C) Result) {
+	g := func(rt *rapid.T) ParCase[C] {
+		pc := ParCase[C]{}
+		for i := 0; i < k; i++ {
+			pc.Cases = append(pc.Cases, gen(rt))
+		}
+		return pc
+	}
+	rounds := 4
+	if os.Getenv("VERIF_REPLAY") != "" {
+		rounds = 400
+	}
+	chk := func(pc ParCase[C]) Result {
+		var out Result
+		for round := 0; round < rounds && out.Viol == nil; round++ {
+			res := make([]Result, len(pc.Cases))
+			var wg sync.WaitGroup
+			start := make(chan struct{})
+			for i := range pc.Cases {
+				wg.Add(1)
+				go func(i int) {
+					defer wg.Done()
+					<-start
+					res[i] = recoverCheck(check, pc.Cases[i])
+				}(i)
+			}
+			close(start)
+			wg.Wait()
+			for i, r1 := range res {
+				if round == 0 {
+					out.Evals += r1.Evals
+					out.Classes = append(out.Classes, r1.Classes...)
+				}
+				if r1.Viol != nil && out.Viol == nil {
+					// does the same case fail on its own?  then it is not a concurrency effect
+					if alone := recoverCheck(check, pc.Cases[i]); alone.Viol != nil {
+						out.Viol = alone.Viol
+					} else {
+						out.Viol = &Violation{Sig: r1.Viol.Sig + "(only-when-run-concurrently)", Detail: fmt.Sprintf("case %d of %d run at the same time (round %d) fails although it passes on its own - hidden shared state: %s", i, len(pc.Cases), round, r1.Viol.Detail)}
+					}
+				}
+			}
+		}
+		out.NonTrivial = true
+		out.Classes = append(out.Classes, fmt.Sprintf("concurrent-group-of-%d", len(pc.Cases)))
+		return out
+	}
+	Run(t, g, chk)
+}
